@@ -257,12 +257,27 @@ class Rotation:
         c = ctx()
         out = np.empty((len(self.mats), 4), dtype=object)
         reg = c.__dict__.setdefault("_quats", [])
+        memo = c.__dict__.setdefault("_quat_memo", {})
+        dots = c.__dict__.setdefault("_qdots", {})          # (i, j), i < j  ->  name of <quat_i, quat_j>
+        defs = c.__dict__.setdefault("_qdot_defs", [])      # (name, polynomial): definitional equalities, for folding
         for i, M in enumerate(self.mats):
+            # as_quat is a FUNCTION of the rotation (scipy returns the same quaternion for the same rotation every time):
+            # the same matrix terms get the same quaternion symbols
+            mkey = tuple(M[a][b].get_id() for a in range(3) for b in range(3))
+            if mkey in memo and all(memo[mkey][1][a][b].eq(M[a][b]) for a in range(3) for b in range(3)):
+                x, y, z, w = memo[mkey][0]
+                if canonical:
+                    c.assume(w >= 0)
+                vals = [w, x, y, z] if scalar_first else [x, y, z, w]
+                for j in range(4):
+                    out[i, j] = SNum(vals[j])
+                continue
             k = next(c.fresh)
             x, y, z, w = [z3.Real("q%s!%d" % (n, k)) for n in "xyzw"]
             orthogonality_lemmas(M, getattr(self, "leaf", False))
+            me = len(reg)
             if _lemma_quat_trace():
-                for (q2, M2) in reg + [((x, y, z, w), M)]:
+                for j2, (q2, M2) in enumerate(reg + [((x, y, z, w), M)]):
                     dot = x * q2[0] + y * q2[1] + z * q2[2] + w * q2[3]
                     tr = sum((M[a][b] * M2[a][b] for a in range(3) for b in range(3)), ZERO)
                     t = z3.Real("qdot!%d" % next(c.fresh))       # name for <p,q>: keeps the lemma quadratic in ONE symbol
@@ -271,7 +286,18 @@ class Rotation:
                     c.assume(4 * dot * dot == 1 + tr)        # same lemma with the product written out (for monomial matching)
                     if _lemma_quat_cs():
                         c.assume(z3.And(t * t <= 1, t <= 1, t >= -1))      # Cauchy-Schwarz for unit quaternions
+                    if j2 < me:
+                        dots[(j2, me)] = t
+                        defs.append((t, dot))
+                if me >= 2 and _lemma_gram():
+                    # Gram determinant of three unit quaternions is non-negative (over the NAMES of the inner products)
+                    for i1 in range(me):
+                        for i2 in range(i1 + 1, me):
+                            a_, b_, c_ = dots.get((i1, i2)), dots.get((i2, me)), dots.get((i1, me))
+                            if a_ is not None and b_ is not None and c_ is not None:
+                                c.assume(1 + 2 * a_ * b_ * c_ - a_ * a_ - b_ * b_ - c_ * c_ >= 0)
             reg.append(((x, y, z, w), M))
+            memo[mkey] = ((x, y, z, w), M)
             c.assume(x * x + y * y + z * z + w * w == 1)
             Q = [[1 - 2 * (y * y + z * z), 2 * (x * y - z * w), 2 * (x * z + y * w)],
                  [2 * (x * y + z * w), 1 - 2 * (x * x + z * z), 2 * (y * z - x * w)],
@@ -326,6 +352,36 @@ def _lemma_euler_orthogonal():
     return _LEMMAS["eo"]
 
 
+def _lemma_gram():
+    """1 + 2abc - a^2 - b^2 - c^2 >= 0 for the pairwise inner products a, b, c of three unit vectors of R^4 (their Gram
+    determinant).  Proof handed over as hints and closed by linear arithmetic over monomials: Cauchy-Binet (the Gram
+    determinant is the sum of the squares of the four 3x3 minors - a polynomial identity the monomial abstraction sees by
+    itself), the four squares being non-negative, and products of the unit equalities with polynomials ((|p|^2-1)*t = 0 is
+    a consequence of |p|^2 = 1 for every t)."""
+    if "gr" not in _LEMMAS:
+        import itertools
+        from . import solve
+        p = z3.Reals("g_p0 g_p1 g_p2 g_p3")
+        q = z3.Reals("g_q0 g_q1 g_q2 g_q3")
+        r = z3.Reals("g_r0 g_r1 g_r2 g_r3")
+
+        def dot(u, v):
+            return sum(a * b for a, b in zip(u, v))
+
+        def det3(m):
+            return (m[0][0] * (m[1][1] * m[2][2] - m[1][2] * m[2][1]) - m[0][1] * (m[1][0] * m[2][2] - m[1][2] * m[2][0])
+                    + m[0][2] * (m[1][0] * m[2][1] - m[1][1] * m[2][0]))
+        A, B, C = dot(p, p), dot(q, q), dot(r, r)
+        a, b, c = dot(p, q), dot(q, r), dot(p, r)
+        minors = [det3([[v[i] for i in idx] for v in (p, q, r)]) for idx in itertools.combinations(range(4), 3)]
+        hints = [m * m >= 0 for m in minors]
+        hints += [(A - 1) * B * C == 0, (B - 1) * C == 0, (A - 1) * b * b == 0, (B - 1) * c * c == 0, (C - 1) * a * a == 0]
+        goal = 1 + 2 * a * b * c - a * a - b * b - c * c >= 0
+        r1, _, _ = solve.check([A == 1, B == 1, C == 1] + hints + [z3.Not(goal)], timeout=60, solvers=("z3",))
+        _LEMMAS["gr"] = (r1 == "unsat")
+    return _LEMMAS["gr"]
+
+
 def _lemma_quat_cs():
     """<p,q>^2 <= 1 for unit quaternions.  No back end finds it unaided; the proof is handed over as hints (Lagrange's
     identity |p|^2|q|^2 - <p,q>^2 = sum_{i<j} (p_i q_j - p_j q_i)^2 is a polynomial identity that the monomial
@@ -352,6 +408,8 @@ def _lemma_quat_cs():
 LEMMA_TEXT = {
     "qt": ("quaternion-trace: |p| = |q| = 1  ==>  4<p,q>^2 = 1 + trace(R(p)^T R(q))", "one z3 query (non-linear reals), unaided"),
     "eo": ("Euler-matrix orthogonality: c_j^2 + s_j^2 = 1 (j = 1..3)  ==>  M^T M = I for M = Euler matrix of (zxz | ZXZ | ZYZ | zyx)", "one z3 query per sequence, unaided"),
+    "gr": ("Gram determinant: |p| = |q| = |r| = 1 in R^4  ==>  1 + 2<p,q><q,r><p,r> - <p,q>^2 - <q,r>^2 - <p,r>^2 >= 0",
+           "one linearised z3 query from the hints: squares of the four 3x3 minors >= 0 (Cauchy-Binet is seen by the monomial abstraction), products of the unit equalities with polynomials"),
     "cs": ("Cauchy-Schwarz for unit quaternions: |p| = |q| = 1  ==>  <p,q>^2 <= 1",
            "two z3 queries: |p|^2 |q|^2 = 1 from the premises; then the goal from that and the hints (p_i q_j - p_j q_i)^2 >= 0 (Lagrange's identity is seen by the monomial abstraction)"),
 }
@@ -362,7 +420,7 @@ def lemma_report(keys):
     import time as _t
     out = []
     for k in keys:
-        fn = {"qt": _lemma_quat_trace, "eo": _lemma_euler_orthogonal, "cs": _lemma_quat_cs}.get(k)
+        fn = {"qt": _lemma_quat_trace, "eo": _lemma_euler_orthogonal, "cs": _lemma_quat_cs, "gr": _lemma_gram}.get(k)
         if fn is None:
             continue
         _LEMMAS.pop(k, None)
